@@ -395,7 +395,7 @@ Print Assumptions C01_wire_udp_faithful.
 (* the oracle applied to real clients accepts the model's client, for every channel map and every
    delivered list of well-formed packets (channel 0..3, at most 65535 bytes) *)
 Theorem C01_wire_model_passes : forall kind chmap out obs,
-  kind <> 1%Z -> forallb C01Wire.pkt_wf out = true ->
+  C01Wire.is_datagram_kind kind = false -> forallb C01Wire.pkt_wf out = true ->
   C01Wire.model_client kind chmap out = Some obs -> C01Wire.ok_wire kind chmap out obs = true.
 Proof. exact C01WireProofs.wire_model_passes_stream. Qed.
 Print Assumptions C01_wire_model_passes.
